@@ -57,11 +57,18 @@ func NewSymbols(n int) *Symbols {
 	if n > 0 {                                                  // L5: the 20 bytes of the key-derived account A0 followed by 12 more — a long address sharing its first 20 bytes with an account that signs
 		s.Mods["L5"] = sdk.AccAddress(append(append([]byte{}, s.Addrs[0]...), []byte{0xee, 0xee, 0xee, 0xee, 0xee, 0xee, 0xee, 0xee, 0xee, 0xee, 0xee, 0xee}...))
 	}
+	// L6, L7: 40-byte addresses (longer than a module-derived one) sharing their first 32 bytes — those of L1
+	s.Mods["L6"] = sdk.AccAddress(append(append([]byte{}, l1...), []byte{0x11, 0x11, 0x11, 0x11, 0x11, 0x11, 0x11, 0x11}...))
+	s.Mods["L7"] = sdk.AccAddress(append(append([]byte{}, l1...), []byte{0x22, 0x22, 0x22, 0x22, 0x22, 0x22, 0x22, 0x22}...))
 	return s
 }
 
 // LongTokens lists the tokens of the addresses that are not key-derived (see NewSymbols).
-var LongTokens = []string{"L0", "L1", "L2", "L3", "L4", "L5"}
+var LongTokens = []string{"L0", "L1", "L2", "L3", "L4", "L5", "L6", "L7"}
+
+// GenLongTokens: the ones the generator draws from (kept as it was when L6 and L7 were added, so that generated histories
+// did not shift; L6 and L7 are exercised by scripts of the regress corpus)
+var GenLongTokens = []string{"L0", "L1", "L2", "L3", "L4", "L5"}
 
 // ModuleTokens lists the module account tokens in token order.
 var ModuleTokens = []string{"Mbond", "Mdist", "Ment", "Mfee", "Mgov", "Mnbond", "Mstr", "Mxfer"}
